@@ -726,8 +726,8 @@ func c16ExtPure(c *Ctx, r *Report) {
 // when that definition is already known; what it may fill in is therefore restricted to arguments the
 // use does not mention at all. An argument written with an explicit value - null included - keeps it,
 // so that the arrangement "definition first" and "use first" describe the same schema.
-// dirUseCompletionHook lets another property's rule set look at the same completion sites.
-var dirUseCompletionHook func(fn *ssa.Function, mu *ssa.MapUpdate, ord int, condOnDefault bool)
+// Ctx.dirUseCompletionHook lets another property's rule set look at the same completion sites (a field of the
+// context, not a package variable: controls analyse several programs at the same time).
 
 func c16Defaults(c *Ctx, r *Report) {
 	if r.Property == "C16" {
@@ -797,8 +797,8 @@ func c16DefaultsBody(c *Ctx, r *Report) {
 					_, o, f, isF := loadOfField(stripIface(v))
 					return isF && o == "Arg" && f == "Default"
 				})
-				if dirUseCompletionHook != nil {
-					dirUseCompletionHook(fn, mu, k, condOnDefault)
+				if c.dirUseCompletionHook != nil {
+					c.dirUseCompletionHook(fn, mu, k, condOnDefault)
 				}
 				if r.Property != "C16" {
 					continue
